@@ -23,7 +23,7 @@ import (
 func init() {
 	ev.Register(&ev.Spec{
 		ID: "C17", Level: "exploration",
-		Rule:    "streams of 1-6 independent request frames (Twrite/Tread/Treaddir/Tgetattr/Twalk/Tversion, with and without payload) delivered to a real server under chosen segmentations: every single cut and every pair of cuts for streams <= 120 bytes, one byte at a time, PRNG cuts for long streams, every truncation offset followed by EOF (separately and together with the last bytes); on the generic io.Reader path (cut-imposing reader) and on an AF_UNIX socket pair (recvmsg path, segments paced by polling the receive queue); the same for a real client receiving segmented replies. Replies (by tag), backend-observed payload bytes and the backend call multiset must equal the unsegmented run. Non-trivial: >= 1 cut strictly inside a frame; distinct by (stream, cut set, path).",
+		Rule:    "streams of 1-6 independent request frames (Twrite/Tread/Treaddir/Tgetattr/Twalk/Tversion, with and without payload) delivered to a real server under chosen segmentations: every single cut and every pair of cuts for streams <= 120 bytes, one byte at a time, PRNG cuts for long streams, every truncation offset followed by EOF (separately and together with the last bytes, and on a socket pair by shutting down the sending direction after that byte); on the generic io.Reader path (cut-imposing reader) and on an AF_UNIX socket pair (recvmsg path, segments paced by polling the receive queue); the same for a real client receiving segmented replies. Replies (by tag), backend-observed payload bytes and the backend call multiset must equal the unsegmented run. Non-trivial: >= 1 cut strictly inside a frame; distinct by (stream, cut set, path).",
 		Assume:  []string{"unsegmented delivery on the same connection is the reference", "socket segment boundaries are enforced by waiting until TIOCINQ reports an empty receive queue"},
 		Shards:  shards(8, 16),
 		Timeout: timeout(6*time.Minute, 45*time.Minute),
